@@ -201,9 +201,17 @@ class Ctx:
                 print(res["harness_error"])
                 raise HarnessError("case evaluation failed")
             self.record(res)
+            if os.environ.get("VERIF_PROFILE"):
+                self.extra.setdefault("_slow", []).append((round(res.get("wall", 0), 2), json.dumps(_jsonable(res.get("case")))[:300]))
 
     # -- finishing ------------------------------------------------------
     def finish(self) -> int:
+        slow = self.extra.pop("_slow", None)
+        if slow:
+            slow.sort(reverse=True)
+            print("total case wall", round(sum(w for w, _ in slow), 1), "s; slowest:")
+            for w, c in slow[:8]:
+                print("  ", w, c)
         known = load_known().get(self.prop, [])
         known_tags = {e["predicate"]: e for e in known}
         unlisted, listed = [], collections.defaultdict(list)
